@@ -773,7 +773,10 @@ func runPodControl(line string) string {
 // ---------------------------------------------------------------- generator
 
 var pcSetNames = []string{"web", "web", "web", "db", "web-1", "a-0-b", "x-007", "w", "a--1", "web-", "0", "1-2", "web-2147483647", "s-99999999999", "-", "",
-	"caf\xc3\xa9", "x\xff", "tidb-cluster-tikv", "-3"}
+	"caf\xc3\xa9", "x\xff", "tidb-cluster-tikv", "-3", "web.v2", "a.b-1",
+	// around the 63-byte limit of a DNS label (the pod name, not the hostname, is what the controller owes): 59 .. 64 and 200 bytes
+	strings.Repeat("a", 59), strings.Repeat("b", 60), strings.Repeat("c", 61), strings.Repeat("d", 62), strings.Repeat("e", 63), strings.Repeat("f", 64),
+	strings.Repeat("long-", 40)}
 var pcBadSetNames = []string{"a\nb", "a\nb-3", "x\n", "\n", "a-1\n"}
 var pcNamespaces = []string{"ns", "ns", "default", "other", "n-1", "n"}
 var pcServices = []string{"svc", "svc", "", "web", "peer-0"}
